@@ -275,6 +275,14 @@ func c10Case(c *mon.Ctx, aText, bText string, prof gen.Profile, kind int) {
 			}
 			break
 		}
+		if c.Index%5 == 2 {
+			// the chain ReadPatchString -> Render -> ReadDiffString: the patch saved as a native diff is the same diff
+			if rd, rerr := jd.ReadDiffString(d.Render()); rerr != nil || hunksEqual(Hunks(d), Hunks(rd)) != "" {
+				c.Violation("a diff read from a JSON Patch does not survive Render / ReadDiffString", map[string]any{"read_as": ref.HunksString(Hunks(d)), "error": fmt.Sprint(rerr)})
+				return
+			}
+			c.Feature("patch_diff_rerendered")
+		}
 		var P jd.JsonNode
 		var e2 error
 		if pan := mon.Safe(func() { P, e2 = ReadJ(t[0]).Patch(d) }); pan != "" {
